@@ -13,6 +13,8 @@ EXPLANATION = ('DynamicFilterPhysicalExpr: (a) current() obtains the expression 
                'function of the module holds guards of `inner` and `current_cache` at the same time. Gate: '
                'HashJoinExec::allow_join_dynamic_filter_pushdown can return true only for join types where, in the reference model, '
                'removing probe rows that match no build row never changes the result. Bounds/IN-list contents and timing are not decided.')
+# path rules cut loops after a bounded number of iterations: complete over rule instances, not over all unrollings
+EXHAUSTIVE = False
 ASSUMPTIONS = ['reference join model', 'the probe side of HashJoinExec is the right input']
 
 DF = 'datafusion_physical_expr::expressions::dynamic_filters::'
